@@ -30,7 +30,7 @@ SourcesHonest == P06(Def, Obs)
 ActionsFold == P07(Def, Obs, Top)
 AttributionSound == IndexDistinct(Def, Obs) /\ (Obs.outcome = "Ok" => ValuesFromArgv(Def, argv, Obs))
 TailVerbatim == P05(Def, argv, Obs, Top)
-ChainAndGlobals == P09(Def, Obs, Top)
+ChainAndGlobals == P09(Def, Obs, Top, Obs)
 Rejections == KindContract(Obs) /\ (Obs.outcome = "Err" => Justified(Def, Obs, Top))
 
 Emit == EmitOn => PrintT(<<"REPLAY", ToJson([d |-> d, argv |-> argv, obs |-> Obs,
